@@ -209,6 +209,11 @@ def run_case(p, drv):
             # object history: other public calls on other rows before the judged ones
             from harness.props import _xcommon as xc_
             xc_.perturb_history(model, p['dseed'], Xtr.shape[1])
+        if p['dseed'] % 3 == 0 and not p.get('solver_in') and not p.get('solver'):
+            # a restored model is a fitted classifier too: what is judged below is a fresh estimator that loaded the exported state
+            restored = build_model(p)
+            restored.load_state_dict(model.get_state_dict(), Xtr)
+            model = restored
     except Exception as e:
         import traceback
         fit_error = e
